@@ -270,6 +270,10 @@ def write_side(ctx, art):
     for i in range(200 if thorough else 40):
         big = rng.choice([100, 5000, 16384, 16385, 20000, 40000, 65536, 70000, 131072, 200000, 300000])
         lines.append("wr %d %d %d %d" % (rng.randrange(1 << 30), big, rng.choice([3, 6, 10]), rng.choice([1, 2, 3, 5])))
+    # the frame-length classes of the WRITTEN frames (RFC 8323 3.2: 0-12 / 13-268 / 269-65804 / 65805+; the message has no
+    # option, so the length is 1 + body bytes): both sides of every class boundary (seeded C07-T: class 14 ended one too late)
+    for big in (11, 12, 13, 267, 268, 269, 65803, 65804, 65805, 65806):
+        lines.append("wr %d %d %d %d" % (rng.randrange(1 << 30), big, 3, 1))
     # ... and in real time (no bubble): four big frames against 2-3 writers of 200-400 short messages each, so that the
     # writers contend for the connection's write lock on different processors
     for i in range(40 if thorough else 8):
